@@ -643,7 +643,13 @@ fn check_gen<T: RealNumber>(c: &mut Case, inp: &GenInput) {
 
     // ---- every complex eigenvalue is an eigenvalue of a matrix within rounding distance of A:
     //      σ_min(A − λI) ≤ τ_g‖A‖_F (real ones are covered by their eigenvector residual)
-    let cidx: Vec<usize> = (0..n).filter(|&i| e[i] > 0.0).collect();
+    let mut cidx: Vec<usize> = (0..n).filter(|&i| e[i] > 0.0).collect();
+    if n > 120 && cidx.len() > 6 {
+        // each certificate costs a decomposition of a 2n×2n matrix: for the orders above 256 only the first, the last
+        // and four pairs between them are certified
+        let m = cidx.len();
+        cidx = vec![cidx[0], cidx[m / 5], cidx[2 * m / 5], cidx[3 * m / 5], cidx[4 * m / 5], cidx[m - 1]];
+    }
     if !cidx.is_empty() {
         let mut worst = 0.0f64;
         let mut wi = cidx[0];
@@ -1181,7 +1187,7 @@ fn order_above_256(c: &mut Case) {
 fn main() {
     runner::main(Spec {
         property: "C02",
-        rule: "cases are drawn per family from seeded structured generators, order n in 1..30 (biased to small n), f64 (65 %) or f32 (35 %). Symmetric solver evd(true): random (Gaussian, integer, sparse, banded, prescribed spectrum), repeated eigenvalues Q·diag(λ with multiplicities)·Qᵀ, diagonal, block-diagonal / tridiagonal with zero couplings (optionally symmetrically permuted), exactly rank-deficient, classical special matrices; every symmetric input is rescaled by 1 / 10^u / 2^u with the factor in [1e-12,1e12] and rounded to the width under test. General solver evd(false): random (Gaussian, integer, sparse, positive, nearly symmetric, block-triangular, Hessenberg, stochastic), triangular (incl. repeated diagonal, nilpotent, Jordan), companion (four layouts; x^n−1, x^n, Wilkinson roots, random roots/coefficients), rotation blocks Q·blockdiag(R(θ),±1)·Qᵀ, normal (Q·blockdiag·Qᵀ, symmetric, skew-symmetric, circulant, signed permutation, Haar orthogonal), badly balanced D·A0·D⁻¹ with D = powers of two up to 2^±20, and S·diag(λ)·S⁻¹ with cond(S) ≤ 10 and well separated real λ. A case is non-trivial when n ≥ 2; distinct = distinct hash of (solver, width, n, entries of A)",
+        rule: "cases are drawn per family from seeded structured generators, order n in 1..30 (biased to small n), f64 (65 %) or f32 (35 %). Symmetric solver evd(true): random (Gaussian, integer, sparse, banded, prescribed spectrum), repeated eigenvalues Q·diag(λ with multiplicities)·Qᵀ, diagonal, block-diagonal / tridiagonal with zero couplings (optionally symmetrically permuted), exactly rank-deficient, classical special matrices; every symmetric input is rescaled by 1 / 10^u / 2^u with the factor in [1e-12,1e12] and rounded to the width under test. General solver evd(false): random (Gaussian, integer, sparse, positive, nearly symmetric, block-triangular, Hessenberg, stochastic), triangular (incl. repeated diagonal, nilpotent, Jordan), companion (four layouts; x^n−1, x^n, Wilkinson roots, random roots/coefficients), rotation blocks Q·blockdiag(R(θ),±1)·Qᵀ, normal (Q·blockdiag·Qᵀ, symmetric, skew-symmetric, circulant, signed permutation, Haar orthogonal), badly balanced D·A0·D⁻¹ with D = powers of two up to 2^±20, and S·diag(λ)·S⁻¹ with cond(S) ≤ 10 and well separated real λ. A case is non-trivial when n ≥ 2; distinct = distinct hash of (solver, width, n, entries of A); large: the symmetric families and the random / normal general ones on orders 31..105; order_above_256: general random matrices of order 258..300",
         assumptions: vec![
             "oracle arithmetic is f64 with compensated sums on the already-rounded inputs",
             "symmetric: tau = 100·n·eps relative to ‖A‖_F (orthonormality: absolute); the comparison with the independent Jacobi reference uses 3·tau because it is implied by the residual and orthonormality oracles through Weyl's inequality",
@@ -1204,8 +1210,8 @@ fn main() {
             Family::new("gen_balance", 800, 16000, gen_balance),
             Family::new("gen_separated", 700, 14000, gen_separated),
             Family::new("gen_quasitri", 700, 14000, gen_quasitri),
-            Family::new("large", 140, 2800, large),
-            Family::new("order_above_256", 6, 60, order_above_256),
+            Family::new("large", 60, 400, large),
+            Family::new("order_above_256", 6, 8, order_above_256),
         ],
         min_nontrivial: 1500,
         case_timeout_s: 120,
